@@ -543,8 +543,8 @@ func (en *Engine) CancelInsidePush(n, q, c int, gated bool) {
 	r.G.SetHook(nil)
 	if fired {
 		en.reached["pushhook/call"+string(rune('0'+c))]++
-	} else if c >= 1 && !en.Caps.P1any {
-		en.skippedCtl["pushhook/call"+string(rune('0'+c))]++ // PushTask consults the context once on a lane with room
+	} else if (c == 0 && !en.Caps.P0) || (c >= 1 && !en.Caps.P1any) {
+		en.skippedCtl["pushhook/call"+string(rune('0'+c))]++ // PushTask does not consult the context that often on a lane with room
 	} else {
 		en.unreached["pushhook/call"+string(rune('0'+c))]++
 	}
